@@ -8,12 +8,19 @@ fixed sentinels from this process (the same values as Model/SchemaRun.v:sentinel
 """
 import datetime
 import json
+import os
 import re
 import sys
+import time
 import uuid
 import warnings
 
 warnings.simplefilter("ignore")
+
+# the worker's LOCAL time zone is far from UTC: STIX timestamps are UTC texts, so nothing the library does may depend
+# on the local zone (a naive datetime handed to astimezone() would be read as local time)
+os.environ["TZ"] = "Pacific/Kiritimati"
+time.tzset()
 
 import stix2  # noqa: E402
 import stix2.base  # noqa: E402
@@ -251,6 +258,15 @@ def run(case):
         if op == "probes":
             return probes()
         if op == "parse":
+            form = case.get("form")
+            if form == "text":
+                case = dict(case, data=json.dumps(case["data"]))
+            elif form == "file":
+                import io
+                case = dict(case, data=io.StringIO(json.dumps(case["data"])))
+            elif form == "bytes-file":
+                import io
+                case = dict(case, data=io.BytesIO(json.dumps(case["data"]).encode("utf-8")))
             obj = stix2.parse(case["data"], allow_custom=case.get("allow", False),
                               interoperability=case.get("interop", False), version=case.get("version"))
             return result_of(obj, case)
